@@ -274,6 +274,7 @@ package transport
 //@ extern net (c Conn) SetWriteDeadline
 //@ func writeMessage [C13]
 //@ noframe
+//@ modifies gCW, gCWptr, gCWlen, gCWbytes, elems(headerBuf)
 //@ requires len(headerBuf) >= 18 && recvBufSize > 0 && recvBufSize < 4611686018427387904 && len(buf) < 4611686018427387904
 //@ ensures result == nil ==> be64(headerBuf, 2) == len(buf) && be16(headerBuf, 0) == header.method
 //@ ensures result == nil && !encrypted ==> be32(headerBuf, 14) == uf("crc32", ptr(buf), len(buf))
